@@ -76,7 +76,12 @@ func (e *ExtensionObject) Decode(b []byte) (int, error) {
 	typeID := e.TypeID.NodeID
 	e.Value = eotypes.New(typeID)
 	if e.Value == nil {
+		// keep the body of an unknown type as raw bytes
+		// so that the object can be encoded again.
 		debug.Printf("ua: unknown extension object %s", typeID)
+		raw := make([]byte, body.Len())
+		copy(raw, body.Bytes())
+		e.Value = raw
 		return buf.Pos(), buf.Error()
 	}
 
@@ -96,7 +101,17 @@ func (e *ExtensionObject) Encode() ([]byte, error) {
 	}
 
 	body := NewBuffer(nil)
-	body.WriteStruct(e.Value)
+	switch v := e.Value.(type) {
+	case nil:
+		// an object without body, e.g. decoded from a zero length
+		buf.WriteUint32(null)
+		return buf.Bytes(), buf.Error()
+	case []byte:
+		// raw body of an unknown type
+		body.Write(v)
+	default:
+		body.WriteStruct(e.Value)
+	}
 	if body.Error() != nil {
 		return nil, body.Error()
 	}
